@@ -1,7 +1,213 @@
 import ConfModel.Driver.Common
+import ConfModel.Model.ServerTimeout
+import ConfModel.Model.ServerChecks
+import ConfModel.Spec.ServerChecks
 namespace ConfModel.Driver.C12
-open Lean ConfModel.Driver
+open Lean ConfModel.Driver ConfModel.ServerChecks ConfModel.ServerChecksSpec
+open ConfModel.ServerTimeout (Bytes Proto)
 
-def handle : Handler := fun op _inp _impl => bad ("C12: unknown op " ++ op)
+def pairs (j : Json) : Hdrs :=
+  (arr j).map (fun p => match strList p with | [k, v] => (k, v) | _ => ("", ""))
+
+def reqOf (j : Json) : Req :=
+  { major := nat (field j "major")
+    method := str (field j "method")
+    headers := pairs (field j "headers")
+    query := pairs (field j "query")
+    tls := match nat (field j "tls") with
+      | 0 => none
+      | 1 => some none
+      | _ => some (some (str (field j "cn")))
+    trailers := nat (field j "trailers")
+    bodyEmpty := bool (field j "bodyEmpty") }
+
+def reqJson (r : Req) : Json :=
+  Json.mkObj [("major", r.major), ("method", r.method),
+    ("headers", toJson (r.headers.map fun kv => [kv.1, kv.2])),
+    ("query", toJson (r.query.map fun kv => [kv.1, kv.2])),
+    ("tls", toJson (reprStr r.tls)), ("trailers", r.trailers), ("bodyEmpty", r.bodyEmpty)]
+
+/-- stable insertion sort on the key (Go side: keys sorted, values in order) -/
+def insertKV (x : String × String) : Hdrs → Hdrs
+  | [] => [x]
+  | y :: ys => if x.1 < y.1 then x :: y :: ys else y :: insertKV x ys
+
+def sortKV (h : Hdrs) : Hdrs := h.foldl (fun acc x => insertKV x acc) []
+
+def optIntStr (j : Json) : Option Int := if isNull j then none else (str j).toInt?
+
+def fbOfClass (s : String) : Fb :=
+  let simple : List Fb := [.repeated, .badExpectedVersion, .version, .protocolUnknown, .protocol, .te,
+    .badExpectedCodec, .getContentType, .getBody, .encodingMissing, .codec, .badExpectedCompression,
+    .compression, .tlsExpected, .plainExpected, .clientCert, .method, .trailers, .timeoutEmpty,
+    .timeoutUnit, .timeoutNumeric, .timeoutDigits]
+  match simple.find? (fun f => f.toString == s) with
+  | some f => f
+  | none =>
+    if s.startsWith "dup:" then .dup (s.drop 4).toString
+    else if s.startsWith "dupq:" then .dupQuery (s.drop 5).toString
+    else if s.startsWith "badvalue:" then .badValue (s.drop 9).toString
+    else if s.startsWith "range:" then .outOfRange (s.drop 6).toString
+    else .other s
+
+def aspects (j : Json) : Option Aspects :=
+  match natList j with
+  | [v, m, p, c, z, t, k] =>
+    some { version := match v with | 0 => .h1 | 1 => .h2 | _ => .h3
+           method := match m with | 0 => .post | _ => .get
+           protocol := match p with | 0 => .connect | 1 => .grpc | _ => .grpcWeb
+           codec := match c with | 0 => .proto | _ => .json
+           compression := match z with
+             | 0 => .identity | 1 => .gzip | 2 => .br | 3 => .zstd | 4 => .deflate | _ => .snappy
+           tls := t != 0, cert := k != 0 }
+  | _ => none
+
+def variant (j : Json) : Variant :=
+  match natList j with
+  | [s, i, b] => { stream := s != 0, explicitIdentity := i != 0, bareGrpc := b != 0 }
+  | _ => { stream := false, explicitIdentity := false, bareGrpc := false }
+
+structure Obs where
+  called : Bool
+  fb : List String
+  named : Bool
+  ms : Option Int
+  seen : Hdrs
+  status : Nat
+  error : Bool
+
+def obsOf (j : Json) : Obs :=
+  { called := bool (field j "called"), fb := strList (field j "fb"), named := bool (field j "named"),
+    ms := optIntStr (field j "ms"), seen := pairs (field j "seen"), status := nat (field j "status"),
+    error := bool (field j "error") }
+
+def outcomeJson (o : Outcome) : Json :=
+  Json.mkObj [("rejected", o.rejected), ("fb", toJson (o.feedback.map Fb.toString)),
+    ("ms", match o.timeout with | some d => toJson (toString (ServerTimeout.timeoutMs d)) | none => Json.null),
+    ("seen", toJson ((sortKV o.seen).map fun kv => [kv.1, kv.2]))]
+
+def agreeObs (o : Outcome) (i : Obs) : Bool :=
+  i.called == !o.rejected && i.fb == o.feedback.map Fb.toString &&
+  i.ms == o.timeout.map ServerTimeout.timeoutMs && (o.rejected || i.seen == sortKV o.seen)
+
+/-- the protocol a literally well-formed `X-Expect-Protocol` value announces -/
+def specProto (vals : List String) : Proto :=
+  match vals with
+  | ["1"] => .connect | ["2"] => .grpc | ["3"] => .grpcWeb | _ => .other
+
+def timeoutHeaderOf : Proto → String
+  | .connect => "Connect-Timeout-Ms"
+  | _ => "Grpc-Timeout"
+
+/-- the property's statements that apply to any request: feedback carries the test name; a
+request without test name is rejected outright (and only such a request); a repeated test is
+flagged; request trailers are flagged; a timeout header is accepted exactly when grammatical,
+echoed as its millisecond floor and removed before the inner handler. -/
+def generalHolds (earlier : List String) (r : Req) (i : Obs) : Bool × String :=
+  let name := testName r
+  let fb := i.fb.map fbOfClass
+  if !i.named then (false, "a message is not prefixed with the test case name") else
+  if name == "" then
+    (!i.called && i.fb.isEmpty && i.error, "a request without test name must be rejected outright")
+  else if !i.called then (false, "request with a test name was not passed on") else
+  if earlier.contains name && !fb.contains .repeated then (false, "repeated request for the same test not flagged") else
+  if !earlier.contains name && fb.contains .repeated then (false, "first request for a test flagged as repeated") else
+  if (r.trailers > 0) != fb.contains .trailers then (false, "request trailers flagged iff present fails") else
+  let p := specProto (values r.headers "X-Expect-Protocol")
+  if p == .other then (true, "") else
+  let hdr := timeoutHeaderOf p
+  match values r.headers hdr with
+  | [] => (i.ms.isNone, "a timeout is echoed although no timeout header was sent")
+  | v :: _ =>
+    let exp := expectedTimeout p (bytesOf v)
+    if i.ms != exp.map ServerTimeout.timeoutMs then
+      (false, s!"timeout header {v.quote}: the grammar/value demands timeout_ms {exp.map ServerTimeout.timeoutMs}, echoed {i.ms}")
+    else if !(values i.seen hdr).isEmpty then (false, "timeout header still visible to the server implementation")
+    else (true, "")
+
+def serveHolds : List String → List Req → List Obs → Bool × String
+  | earlier, r :: rs, i :: is =>
+    let (ok, why) := generalHolds earlier r i
+    if !ok then (false, why) else
+    serveHolds (if i.called then testName r :: earlier else earlier) rs is
+  | _, _, _ => (true, "")
+
+def handle : Handler := fun op inp impl =>
+  if !(isNull (field impl "panic")) then
+    { agree := false, holds := false, why := "panic: " ++ str (field impl "panic") } else
+  match op with
+  | "timeout" =>
+    let pn := int (field inp "proto")
+    let p := protoOf pn
+    let cv := (strList (field inp "connect")).map unhex
+    let gv := (strList (field inp "grpc")).map unhex
+    let m := ServerTimeout.extractTimeout p cv gv
+    let hdr := timeoutHeaderOf p
+    let mFb := m.feedback.map (fun f => (liftT hdr f).toString)
+    let iOk := bool (field impl "ok")
+    let iNs := (str (field impl "ns")).toInt?.getD 0
+    let iMs := optIntStr (field impl "ms")
+    let iFb := strList (field impl "fb")
+    let cLeft := nat (field impl "connectLeft")
+    let gLeft := nat (field impl "grpcLeft")
+    let mCLeft := if p == .connect && m.removed then 0 else cv.length
+    let mGLeft := if (p == .grpc || p == .grpcWeb) && m.removed then 0 else gv.length
+    let agree := iOk == m.timeout.isSome && (if iOk then some iNs else none) == m.timeout && iFb == mFb &&
+      cLeft == mCLeft && gLeft == mGLeft && iMs == m.timeout.map ServerTimeout.timeoutMs
+    -- the property
+    let vals := match p with | .connect => cv | .grpc | .grpcWeb => gv | .other => []
+    let left := match p with | .connect => cLeft | _ => gLeft
+    let (holds, why) : Bool × String :=
+      if !bool (field impl "named") then (false, "feedback not prefixed with the test case name") else
+      match vals with
+      | [] => (!iOk, "a timeout was accepted without a header")
+      | v :: _ =>
+        let exp := expectedTimeout p v
+        if iOk != exp.isSome then
+          (false, s!"header value {hex v}: grammatical={exp.isSome} accepted={iOk}")
+        else if iOk && some iNs != exp then (false, s!"duration {iNs} ns, exact value is {exp}")
+        else if iOk && iMs != exp.map ServerTimeout.timeoutMs then (false, s!"echoed timeout_ms {iMs}")
+        else if left != 0 then (false, "timeout header not removed")
+        else (true, "")
+    { agree := agree, holds := holds, nontrivial := !vals.isEmpty,
+      model := Json.mkObj [("ok", m.timeout.isSome), ("ns", toJson (m.timeout.map toString)), ("fb", toJson mFb),
+        ("connectLeft", mCLeft), ("grpcLeft", mGLeft)],
+      why := why, cls := if iOk then "accepted" else if vals.isEmpty then "absent" else "rejected" }
+  | "checks" =>
+    let reqs := (arr (field inp "reqs")).map reqOf
+    let obs := (arr impl).map obsOf
+    let outs := serve [] reqs
+    let agree := outs.length == obs.length && (outs.zip obs).all (fun (o, i) => agreeObs o i)
+    let (holds, why) := serveHolds [] reqs obs
+    { agree := agree, holds := holds && obs.length == reqs.length,
+      nontrivial := obs.any (fun i => !i.fb.isEmpty) || reqs.length > 1,
+      model := toJson (outs.map outcomeJson), why := why }
+  | "matrix" =>
+    match aspects (field inp "e"), aspects (field inp "a") with
+    | some e, some a =>
+      let v := variant (field inp "v")
+      let name := str (field inp "name")
+      let r := render e name a v
+      let o := checks 0 r
+      match (arr impl).map obsOf with
+      | [i] =>
+        let fb := i.fb.map fbOfClass
+        let (g, gwhy) := generalHolds [] r i
+        let exact := !a.realisable || flagsExactly e a fb
+        { agree := agreeObs o i, holds := g && exact,
+          nontrivial := a.realisable, model := outcomeJson o,
+          why := if !g then gwhy else if !exact then
+            s!"feedback {i.fb} does not name exactly the deviating aspects {reprStr (mismatches e a)}" else "",
+          cls := if !a.realisable then "unrealisable" else if aspectsMatch e a then "match" else "deviating" }
+      | _ => bad "matrix: expected one observation"
+    | _, _ => bad "matrix: bad tuples"
+  | "render" =>
+    match aspects (field inp "e"), aspects (field inp "a") with
+    | some e, some a =>
+      let r := render e (str (field inp "name")) a (variant (field inp "v"))
+      let i := reqOf impl
+      { agree := r == i, holds := true, nontrivial := true, model := reqJson r }
+    | _, _ => bad "render: bad tuples"
+  | _ => bad ("C12: unknown op " ++ op)
 
 end ConfModel.Driver.C12
